@@ -8,10 +8,12 @@
 use std::{collections::VecDeque, fmt, sync::Arc};
 
 #[cfg(not(era_consensus_verif))]
-use crate::sync::watch;
+use crate::{
+    ctx,
+    sync::{self, watch},
+};
 #[cfg(era_consensus_verif)]
-use crate::verif::watch_shim as watch;
-use crate::{ctx, sync};
+use crate::{ctx, sync, verif::watch_shim as watch};
 
 #[cfg(test)]
 mod tests;
